@@ -57,6 +57,9 @@ func selWords(text string, names map[string]string) (ws []string, ok bool) {
 	for _, t := range res.tokens {
 		switch {
 		case t.Token == tokEOF:
+		case tokenWord(t) != "":
+			// a string literal / back-quoted identifier: the word carries its content byte for byte
+			raw = append(raw, tokenWord(t))
 		case t.Token == parser.IDENTIFIER && !t.Quoted && isIdentWord(strings.ToLower(t.Literal)) && t.Literal == strings.ToLower(t.Literal):
 			raw = append(raw, t.Literal)
 		case t.Token == parser.INTEGER && len(t.Literal) < 6:
@@ -87,6 +90,8 @@ func selWords(text string, names map[string]string) (ws []string, ok bool) {
 		switch {
 		case w == ";":
 			return nil, false
+		case isLitWord(w) && (i+1 < len(raw) && (raw[i+1] == "." || raw[i+1] == "(" && w[0] == '`') || i > 0 && raw[i-1] == "."):
+			return nil, false // a quoted name as qualifier / function name, a literal behind a dot
 		case isIdentWord(w) && i+2 < len(raw) && raw[i+1] == "." && isIdentWord(raw[i+2]):
 			ws = append(ws, w+"."+raw[i+2])
 			i += 2
@@ -200,6 +205,9 @@ func selCase(o *hc.Out, text, origin string) {
 		return
 	}
 	o.Case("c18.sel "+strings.Join(ws, " "), impl)
+	if impl != "ERR" && impl != "PANIC" {
+		printedLiteralLaw(o, text, ws, strings.Fields(impl))
+	}
 	if impl == "ERR" {
 		o.Count("sel.err:" + origin)
 		o.NonTrivial("sel:err:" + strings.Join(ws, " "))
@@ -232,6 +240,9 @@ func qryCase(o *hc.Out, text string) {
 		return
 	}
 	o.Case("c18.qry "+strings.Join(ws, " "), impl)
+	if parts := strings.SplitN(impl, " | ", 2); len(parts) == 2 {
+		printedLiteralLaw(o, text, ws, strings.Fields(parts[1]))
+	}
 	if impl == "ERR" {
 		o.Count("qry.err")
 		o.NonTrivial("qry:err:" + strings.Join(ws, " "))
@@ -338,7 +349,10 @@ func genQryCaseText(g *hc.Gen) string {
 
 // ---------- generator of queries inside the modelled fragment ----------
 
-func genSelText(g *hc.Gen) string {
+func genSelText(g *hc.Gen) string { return renderLiterals(genSelRaw(g)) }
+
+// the text with literal words ('<hex>, `<hex>) still in place of the literals
+func genSelRaw(g *hc.Gen) string {
 	ex := func(d int) string { return strings.Join(genOpTree(g, d).words(), " ") }
 	pid := func() string { return g.Pick("a", "b", "c", "d", "k1") }
 	tab := func() string { return g.Pick("t", "u", "v", "t1") + g.Pick("", "", " x", " as y", " AS z") }
